@@ -1,6 +1,9 @@
 package main
 
 import (
+	"fmt"
+
+	"verif/harness/c04/cx"
 	"verif/harness/hx"
 	"verif/harness/protox"
 )
@@ -12,8 +15,52 @@ func main() {
 			res.Imports = []string{"Lib.Bytes", "Proto", "Corr.Proto"}
 			res.CaseType = "protocase"
 			res.Checker = "proto_check"
-			res.Rule = "generated programs (1-3 stores x value placement x slot length 2-8 x op mix forcing new root/split/node removal/update) with a populated prefix; the subject transaction is run fault-free and once per injected failure at an interface call of its commit (fail = not performed, failafter = performed then reported failed); each run in a child process, state read back by a fresh process; distinct = distinct (program, fault) pairs; non-trivial = a fault is injected or the subject has > 2 ops"
+			res.Rule = "generated programs (1-3 stores x value placement x slot length 2-8 x op mix forcing new root/split/node removal/update) with a populated prefix; the subject transaction is run fault-free and once per injected failure at an interface call of its commit (fail = not performed, failafter = performed then reported failed); each run in a child process, state read back by a fresh process; plus concurrent histories: two writers adding disjoint keys to the same leaves of an existing store under random gate schedules (the loser refetches and merges), Count() vs scan length in a fresh process; distinct = distinct (program, fault) pairs / distinct concurrent programs; non-trivial = a fault is injected or the subject has > 2 ops / at least one writer merged"
 		}
-		return res, err
+		if err != nil || cfg.Replay != "" {
+			return res, err
+		}
+		// concurrent histories (the count delta must be rebased when a writer refetches and merges)
+		n := 6
+		if cfg.Tier == "thorough" {
+			n = 80
+		}
+		r := hx.NewRng(hx.NewRng(cfg.Seed).U64() + 6)
+		var jobs []cx.Job
+		for len(jobs) < n {
+			p := cx.GenDisjoint(r, "leaf")
+			if len(p.Writers) != 2 {
+				continue
+			}
+			p.Schedule = cx.RandomSchedule(r, 2)
+			jobs = append(jobs, cx.Job{P: p, Bucket: "c06-conc", NoModel: true})
+		}
+		outs := cx.RunAll(jobs, 6, false)
+		for i, o := range outs {
+			p := jobs[i].P
+			merged := false
+			committed := 0
+			for _, w := range o.W {
+				if w.Merges > 0 {
+					merged = true
+				}
+				if w.Committed {
+					committed++
+				}
+			}
+			res.Seen(fmt.Sprintf("conc:%v:%v", p.Init, p.Writers), merged)
+			res.Count(fmt.Sprintf("concurrent.committed=%d", committed))
+			if merged {
+				res.Count("concurrent.merged")
+			}
+			if o.Dump == nil || o.DumpErr != "" || o.ChildErr != "" || o.SetupErr != "" || o.Stuck != "" {
+				res.Count("concurrent.unusable")
+				continue
+			}
+			if o.Dump.Err == "" && o.Dump.Count != int64(len(o.Dump.Keys)) {
+				res.Fail("count-mismatch/concurrent-disjoint-adds", fmt.Sprintf("two writers adding disjoint keys to one store (one refetched and merged): Count()=%d but a scan returns %d items", o.Dump.Count, len(o.Dump.Keys)), map[string]any{"concurrent": p})
+			}
+		}
+		return res, nil
 	})
 }
